@@ -609,6 +609,16 @@ fn resolve_regions(
     }
     let mut resolved = Regions::default();
 
+    // If any of the field types is not resolved yet, neither can this type be. Deferring here,
+    // before anything is laid out, keeps the outcome independent of the resolution order:
+    // with an unresolved first base we would otherwise assume there is no base vftable.
+    if regions
+        .iter()
+        .any(|(_, r)| r.size(&semantic.type_registry).is_none())
+    {
+        return Ok(None);
+    }
+
     // Create vftable
     let first_base = regions.iter().map(|t| &t.1).find(|r| r.is_base);
     let (vftable, vftable_region) = vftable::build(
